@@ -119,6 +119,12 @@ func main() {
 	}
 	add("custom-unmarshalers", []byte(grammar.CustomSpec))
 	add("repeated-inline-constructs", []byte(grammar.RepeatsSpec))
+	// members whose order in the document is not the alphabetical one and matters to nobody (schemes of
+	// one security requirement, scopes, response headers, media types, server variables, mapping
+	// entries ...): a one-line spelling and a multi-line spelling put them at the same / at different
+	// lines, an alias gives them no position at all
+	add("order-sensitive-shapes", []byte(grammar.ShapesSpec))
+	add("path-item-parameters", []byte(grammar.PathItemsSpec))
 	// strings with line breaks (pattern, description, default, enum members, example) in every
 	// chomping situation: no, one and two trailing line breaks, several lines
 	add("multi-line-strings", []byte(`{"openapi":"3.0.3","info":{"title":"t","version":"1","description":"first line\nsecond line\n"},"paths":{
